@@ -19,6 +19,7 @@ CONSTANTS
   HealOdds = 3
   ListLag = FALSE
   FixSkew = TRUE
+  MaxMods = 0
   Edge = TRUE
 VIEW View
 INVARIANTS TypeOK InvExclusionMargin
